@@ -255,20 +255,12 @@ func c07CodecWellFormed(d EncodedNode) error {
 func c07CodecRobust(t c07Fataler, in []byte) (decoded bool, sanitised int) {
 	b := append([]byte{}, in...)
 	sanitised = c07kit.Sanitize(b)
-	defer func() {
-		if r := recover(); r != nil {
-			st := string(debug.Stack())
-			if i := strings.Index(st, "panic("); i >= 0 {
-				st = st[i:]
-			}
-			if len(st) > 1500 {
-				st = st[:1500]
-			}
-			t.Fatalf("codec.Decode(%x) panicked: %v\n%s", b, r, st)
-		}
-	}()
 	r := c07kit.NewCountingReader(b)
-	d, err := Decode[chash.H256](r)
+	var d EncodedNode
+	var err error
+	if pv, st := c07Try(func() { d, err = Decode[chash.H256](r) }); pv != nil {
+		t.Fatalf("codec.Decode(%x) panicked: %v\n%s", b, pv, st)
+	}
 	if err != nil {
 		return false, sanitised
 	}
@@ -279,6 +271,23 @@ func c07CodecRobust(t c07Fataler, in []byte) (decoded bool, sanitised int) {
 		t.Fatalf("codec.Decode(%x) succeeded with a malformed node: %v", b, err)
 	}
 	return true, sanitised
+}
+
+func c07Try(f func()) (pv any, st string) {
+	defer func() {
+		if r := recover(); r != nil {
+			pv = r
+			st = string(debug.Stack())
+			if i := strings.Index(st, "panic("); i >= 0 {
+				st = st[i:]
+			}
+			if len(st) > 1500 {
+				st = st[:1500]
+			}
+		}
+	}()
+	f()
+	return nil, ""
 }
 
 func TestC07CodecDecodeRobust(t *testing.T) {
